@@ -128,7 +128,9 @@ func c20DamageGz(gz []byte, damage string) ([]byte, error) {
 // c20.parse consumer entCap errCap deadlineMs src gzdamage seed stall text
 //   (src: plain | gz | read | read2 = two dumps opened with uniprot.Read before either is consumed)
 //   -> closed nErr nDel (acc names seq)* traceSyms nTrace (acc names seq)* gzErr plainLen isPrefix sticky
-//   |  openerr gzOpenErr            (src read, uniprot.Read returned an error)
+//   |  openerr gzOpenErr leaked     (src read, uniprot.Read returned an error)
+//   |  violation reason errors=.. delivered=..   (the library finished but broke the protocol)
+//   (a library call that does not finish ends the request as `timeout blocked reason …`, process exits)
 func c20Parse(args []string) ([]string, error) {
 	if len(args) != 9 {
 		return nil, fmt.Errorf("c20.parse: want 9 arguments")
@@ -193,8 +195,8 @@ func c20Parse(args []string) ([]string, error) {
 
 	var entries chan uniprot.Entry
 	var errs chan error
-	var secondOK chan bool
-	var startSecond func()
+	var startSecond func() (blocked bool, problem string)
+	var tmpFiles []string
 	done := make(chan interface{}, 1)
 	switch src {
 	case "plain", "gz":
@@ -216,6 +218,7 @@ func c20Parse(args []string) ([]string, error) {
 		}
 		path := f.Name()
 		defer os.Remove(path)
+		tmpFiles = append(tmpFiles, path)
 		if _, err := f.Write(gzBytes); err != nil {
 			f.Close()
 			return nil, err
@@ -258,6 +261,7 @@ func c20Parse(args []string) ([]string, error) {
 			}
 			pathB := fb.Name()
 			defer os.Remove(pathB)
+			tmpFiles = append(tmpFiles, pathB)
 			if _, err := fb.Write(c20Gzip(textB)); err != nil {
 				fb.Close()
 				return nil, err
@@ -268,13 +272,10 @@ func c20Parse(args []string) ([]string, error) {
 				return nil, fmt.Errorf("second Read failed: %v", errB)
 			}
 			_, wantB, _ := c20Trace(bytes.NewReader(textB))
-			secondOK = make(chan bool, 1)
-			startSecond = func() {
+			startSecond = func() (bool, string) {
 				var gotB []uniprot.Entry
 				nErrB := 0
-				ok := true
 				to := time.After(ioDeadline(deadlineMs))
-			loopB:
 				for ceB != nil || crB != nil {
 					select {
 					case e, open := <-ceB:
@@ -290,26 +291,34 @@ func c20Parse(args []string) ([]string, error) {
 							nErrB++
 						}
 					case <-to:
-						ok = false
-						break loopB
+						return true, fmt.Sprintf("second dump: channels not closed within the deadline (%d entries, %d errors so far)", len(gotB), nErrB)
 					}
 				}
 				if nErrB != 0 || len(gotB) != len(wantB) {
-					ok = false
-				} else {
-					for i := range gotB {
-						if strings.Join(c20Entry(gotB[i]), "\x00") != strings.Join(c20Entry(wantB[i]), "\x00") {
-							ok = false
-						}
+					return false, fmt.Sprintf("second dump: %d entries and %d errors, want %d entries and no error", len(gotB), nErrB, len(wantB))
+				}
+				for i := range gotB {
+					if strings.Join(c20Entry(gotB[i]), "\x00") != strings.Join(c20Entry(wantB[i]), "\x00") {
+						return false, fmt.Sprintf("second dump: entry %d is %q, want %q", i, c20Entry(gotB[i]), c20Entry(wantB[i]))
 					}
 				}
-				secondOK <- ok
+				return false, ""
 			}
 		}
 	}
 
 	rng := rand.New(rand.NewSource(seed))
+	// stall > 1000: additionally ONE long stall of (stall - 1000) ms before the third receive (a parser that
+	// gives up on a slow consumer after a timeout would lose an entry there)
+	longStall, receives := 0, 0
+	if stall > 1000 {
+		longStall, stall = stall-1000, 300
+	}
 	pause := func() {
+		receives++
+		if receives == 3 && longStall > 0 {
+			time.Sleep(time.Duration(longStall) * time.Millisecond)
+		}
 		if rng.Intn(1000) >= stall {
 			return
 		}
@@ -326,10 +335,12 @@ func c20Parse(args []string) ([]string, error) {
 			_ = x
 		}
 	}
-	deadline := time.After(ioDeadline(deadlineMs))
+	deadline := time.After(ioDeadline(deadlineMs) + time.Duration(longStall)*time.Millisecond)
 	var delivered []uniprot.Entry
 	nErr := 0
-	closed := true
+	// blocked: the library did not finish within the deadline (the request ends as `timeout`, the process exits);
+	// violation: the library finished but the harness saw something the property forbids (reply `violation`)
+	blocked, violation := "", ""
 	if sequential {
 		// the documented usage: for e := range entries {...}; for err := range errors {...}
 	entLoop:
@@ -342,12 +353,12 @@ func c20Parse(args []string) ([]string, error) {
 				}
 				delivered = append(delivered, e)
 			case <-deadline:
-				closed = false
+				blocked = "entries channel not closed within the deadline"
 				break entLoop
 			}
 		}
 	errLoop:
-		for closed {
+		for blocked == "" {
 			pause()
 			select {
 			case _, ok := <-errs:
@@ -356,12 +367,12 @@ func c20Parse(args []string) ([]string, error) {
 				}
 				nErr++
 			case <-deadline:
-				closed = false
+				blocked = "error channel not closed within the deadline (entries channel closed)"
 			}
 		}
 	} else {
 		ec, rc := entries, errs
-		for closed && (ec != nil || rc != nil) {
+		for blocked == "" && (ec != nil || rc != nil) {
 			pause()
 			select {
 			case e, ok := <-ec:
@@ -377,54 +388,68 @@ func c20Parse(args []string) ([]string, error) {
 					nErr++
 				}
 			case <-deadline:
-				closed = false
+				blocked = fmt.Sprintf("channels not closed within the deadline (entries closed: %v, errors closed: %v)", ec == nil, rc == nil)
 			}
 		}
 	}
-	if closed {
-		// closed means closed: further receives return !ok at once; the parser goroutine has returned
-		// without panic (no send on, no second close of, a closed channel)
-		for i := 0; i < 2; i++ {
+	if blocked == "" {
+		// closed means closed: further receives return !ok at once
+		for i := 0; i < 2 && violation == ""; i++ {
 			select {
 			case _, ok := <-entries:
 				if ok {
-					closed = false
+					violation = "a value arrived on the entries channel after it was observed closed"
 				}
 			case <-time.After(time.Second):
-				closed = false
+				violation = "the entries channel blocks after it was observed closed"
 			}
 			select {
 			case _, ok := <-errs:
 				if ok {
-					closed = false
+					violation = "a value arrived on the error channel after it was observed closed"
 				}
 			case <-time.After(time.Second):
-				closed = false
+				violation = "the error channel blocks after it was observed closed"
 			}
 		}
+		// the parser goroutine has returned without panic (no send on, no second close of, a closed channel)
 		select {
 		case p := <-done:
 			if p != nil {
-				return nil, fmt.Errorf("parser goroutine panicked: %v", p)
+				violation = fmt.Sprintf("parser goroutine panicked after closing: %v", p)
 			}
 		case <-time.After(5 * time.Second):
-			closed = false
+			blocked = "parser goroutine did not return after both channels were closed"
+		}
+	} else {
+		// not closed: because the parser goroutine died?
+		select {
+		case p := <-done:
+			if p != nil {
+				blocked, violation = "", fmt.Sprintf("parser goroutine panicked, channels never closed: %v", p)
+			}
+		default:
 		}
 	}
-
-	if startSecond != nil {
-		startSecond()
-		if !<-secondOK {
-			closed = false // the second dump, opened while the first was unread, did not come through intact
+	if blocked == "" && violation == "" && startSecond != nil {
+		b, problem := startSecond()
+		if b {
+			blocked = problem
+		} else {
+			violation = problem // the second dump, opened while the first was unread, did not come through intact
 		}
 	}
-
-	if !closed {
-		// The parser did not close both channels within the deadline (the model says every stream terminates,
-		// for every capacity and consumer): the request ends as `timeout`, judged FAIL, and the process exits —
-		// a parser goroutine that is blocked or spinning (and possibly allocating) must not live on.
-		ioBlocked()
+	counts := []string{"errors=" + strconv.Itoa(nErr), "delivered=" + strconv.Itoa(len(delivered))}
+	if blocked != "" {
+		// The model says every stream terminates, for every capacity and consumer. The request ends as `timeout`
+		// (judged FAIL) and the process exits: a parser goroutine that is blocked or spinning (and possibly
+		// allocating) must not live on. Does not return.
+		ioBlocked(tmpFiles, blocked, counts...)
 	}
+	if violation != "" {
+		return append([]string{"violation", violation}, counts...), nil
+	}
+	closed := true
 
 	// our own tokenisation of the same stream
 	syms, trEntries, sticky := "", []uniprot.Entry(nil), true
